@@ -9,7 +9,7 @@ import (
 	"time"
 )
 
-//verif:entry property=C13 tier=both bounds="K publishes (K_quick=3,K_thorough=4), each with outcome in {ok, unencodable event (by type or by value: NaN), append rejected (with a plain error or one that also wraps context.Canceled), deadline expired}; error handler present or nil; persistence timeout set or not; observability set or not" cover="all-ok,some-failed" K_quick=3 K_thorough=4
+//verif:entry property=C13 tier=both bounds="K publishes (K_quick=3,K_thorough=4), each with outcome in {ok, unencodable event (by type or by value: NaN), append rejected (with a plain error or one that also wraps context.Canceled), deadline expired}; error handler present or nil; persistence timeout set or not; observability set or not; a replay subscription live on the bus or not" cover="all-ok,some-failed" K_quick=3 K_thorough=4
 func harnessC13Failures() {
 	K := vParam("K", 3)
 	mem := NewMemoryStore()
@@ -26,7 +26,7 @@ func harnessC13Failures() {
 	var reports []rep
 	opts := []Option{WithStore(fs)}
 	unencKind := vInt(0, 2) // the unencodable event: 0 by type (chan), 1 by value (NaN), 2 its own MarshalJSON yields invalid JSON
-	deadLetter := vBool() // the error handler publishes a (non-persistable) dead-letter event on the same bus
+	deadLetter := vBool()   // the error handler publishes a (non-persistable) dead-letter event on the same bus
 	var busRef *EventBus
 	deadLetters := 0
 	if withHandler {
@@ -49,6 +49,12 @@ func harnessC13Failures() {
 	var gotA []int
 	gotBad := 0
 	Subscribe(bus, func(e evF) { gotA = append(gotA, e.N) })
+	// a replay subscription's live handler is a handler like any other
+	var gotR []int
+	withReplaySub := vBool()
+	if withReplaySub {
+		vAssert(SubscribeWithReplay(context.Background(), bus, "c13-sub", func(e evF) { gotR = append(gotR, e.N) }) == nil, "subscribe-ok")
+	}
 	Subscribe(bus, func(e evBad) { gotBad++ })
 	byValue := unencKind == 1
 	gotSelfBad := 0
@@ -95,6 +101,9 @@ func harnessC13Failures() {
 
 	// delivery is unaffected
 	vAssert(len(gotA) == K-nBad && gotBad+gotSelfBad == nBad, "all-handlers-still-run")
+	if withReplaySub {
+		vAssert(len(gotR) == len(gotA), "all-handlers-still-run")
+	}
 	// exactly one append attempt per encodable publish, no retry
 	vAssert(fs.calls == K-nUnenc, "one-append-attempt-each")
 	for _, d := range fs.sawDeadline {
